@@ -4,7 +4,7 @@ Refuting events: for a generated document and a position, get_open_tag /
 select_item_html / get_css_section / select_item_css differ from the generator's record of
 tags, attributes, class tokens, declarations, value tokens and before/after offsets."""
 import json
-from .. import core, gen_css, gen_html
+from .. import core, forms, gen_css, gen_html
 from . import C10
 
 ID = 'C17'
@@ -77,12 +77,17 @@ def kept_options(xml):
 
 
 KEPT = {}
+FORM = [0]
 
 
 def check_html(src, recs, ctx, au, positions=None, xml=False):
     docase = {'lang': 'html', 'src': src, 'truth': gen_html.to_json(recs), 'xml': xml}
     options = kept_options(xml)
     ctx.ev('html:document:xml' if xml else 'html:document')
+    FORM[0] += 1
+    arg = forms.MarkupLike(src) if FORM[0] % 5 == 1 else (forms.Shown(src) if FORM[0] % 5 == 3 else src)
+    if arg is not src:
+        ctx.ev('document:' + type(arg).__name__)
     tags = sorted(recs, key=lambda r: r['open'][0])
     models = [tag_model(src, r) for r in tags]
     for m in models:
@@ -93,7 +98,7 @@ def check_html(src, recs, ctx, au, positions=None, xml=False):
         case = dict(docase, pos=pos)
         # ---------------- get_open_tag
         ctx.mon('oracle:get_open_tag')
-        r = core.call(au.get_open_tag, src, pos)
+        r = core.call(au.get_open_tag, arg, pos)
         inside = [t for t in tags if t['open'][0] < pos < t['open'][1]]
         if xml:
             pass        # (the helper has no XML mode: judged on the HTML documents only)
@@ -119,7 +124,7 @@ def check_html(src, recs, ctx, au, positions=None, xml=False):
         # ---------------- select_item_html
         for is_prev in (False, True):
             ctx.mon('oracle:select_item_html')
-            r = core.call(au.select_item_html, src, pos, is_prev, options) if (xml or pos % 2) else core.call(au.select_item_html, src, pos, is_prev)
+            r = core.call(au.select_item_html, arg, pos, is_prev, options) if (xml or pos % 2) else core.call(au.select_item_html, arg, pos, is_prev)
             if r[0] == 'exc':
                 ctx.violation('exception', dict(case, fn='select_item_html', prev=is_prev), {'exc': list(core.exc_site(r[1]))})
                 continue
@@ -171,6 +176,10 @@ def css_item_model(src, it):
 
 
 def check_css(src, recs, ctx, au, positions=None):
+    FORM[0] += 1
+    arg = forms.MarkupLike(src) if FORM[0] % 5 == 1 else (forms.Shown(src) if FORM[0] % 5 == 3 else src)
+    if arg is not src:
+        ctx.ev('document:' + type(arg).__name__)
     docase = {'lang': 'css', 'src': src, 'truth': C10.to_json(recs)}
     rules = [r for r in recs if r['type'] == 'rule']
     items = sorted(recs, key=lambda r: r['start'])
@@ -180,7 +189,7 @@ def check_css(src, recs, ctx, au, positions=None):
         case = dict(docase, pos=pos)
         # ---------------- get_css_section
         ctx.mon('oracle:get_css_section')
-        r = core.call(au.get_css_section, src, pos, True)
+        r = core.call(au.get_css_section, arg, pos, True)
         if r[0] == 'exc':
             ctx.violation('exception', dict(case, fn='get_css_section'), {'exc': list(core.exc_site(r[1]))})
         else:
@@ -238,7 +247,7 @@ def check_css(src, recs, ctx, au, positions=None):
         # ---------------- select_item_css
         for is_prev in (False, True):
             ctx.mon('oracle:select_item_css')
-            r = core.call(au.select_item_css, src, pos, is_prev)
+            r = core.call(au.select_item_css, arg, pos, is_prev)
             if r[0] == 'exc':
                 ctx.violation('exception', dict(case, fn='select_item_css', prev=is_prev), {'exc': list(core.exc_site(r[1]))})
                 continue
@@ -270,12 +279,13 @@ def check_css_sanity(src, ctx, au):
     """Stylesheets with colon-less statements (@include x; / @extend .a; / a name still being typed): the statement does not say
     what the helpers return for them, so only what it says about EVERY result is judged - ranges lie inside the text, inside the
     item, and never end before they start."""
+    arg = src
     n = len(src)
     for pos in range(n + 1):
         for prev in (False, True):
             ctx.ev('css:position-with-statements')
             ctx.mon('oracle:select_item_css-well-formed')
-            r = core.call(au.select_item_css, src, pos, prev)
+            r = core.call(au.select_item_css, arg, pos, prev)
             case = {'lang': 'css-statements', 'src': src, 'pos': pos, 'previous': prev}
             if r[0] == 'exc':
                 ctx.violation('exception', dict(case, fn='select_item_css'), {'exc': list(core.exc_site(r[1]))})
@@ -288,14 +298,14 @@ def check_css_sanity(src, ctx, au):
                 ctx.violation('select-css-malformed', case, {'start': it.start, 'end': it.end, 'ranges': [list(x) for x in it.ranges][:6]})
             else:
                 ctx.seen((src, pos, prev))
-        r = core.call(au.get_css_section, src, pos, True)
+        r = core.call(au.get_css_section, arg, pos, True)
         if r[0] == 'exc':
             ctx.violation('exception', {'lang': 'css-statements', 'src': src, 'pos': pos, 'fn': 'get_css_section'}, {'exc': list(core.exc_site(r[1]))})
         elif r[1] is not None:
             s = r[1]
             # the two helpers agree on what a declaration is: the NEXT item never lies beyond a declaration the section lists at or after the position
             ahead = [pr for pr in (s.properties or []) if pr.name[0] >= pos]
-            nx = core.call(au.select_item_css, src, pos, False)
+            nx = core.call(au.select_item_css, arg, pos, False)
             if ahead and nx[0] == 'ok':
                 ctx.mon('oracle:next-item-does-not-skip-a-listed-declaration')
                 if nx[1] is None or nx[1].start > ahead[0].name[0]:
